@@ -56,6 +56,9 @@ type PathExit struct {
 	Kind  ExitKind
 	Last  ssa.Instruction
 	Trail []string
+	// Nil evaluates, in the abstract state at the exit, whether a value is
+	// nil (True), non-nil (False) or not known.
+	Nil func(ssa.Value) Abs
 }
 
 type Explorer struct {
@@ -227,7 +230,7 @@ func (e *Explorer) Run(start Point) []PathExit {
 			if e.StopAtStart && b == start.Block && from <= start.Index {
 				// will pass the start point again
 				if from == 0 && start.Index == 0 {
-					exits = append(exits, PathExit{ExitRevisit, fn.Blocks[b].Instrs[0], trail})
+					exits = append(exits, PathExit{Kind: ExitRevisit, Last: fn.Blocks[b].Instrs[0], Trail: trail})
 					return
 				}
 			}
@@ -246,7 +249,7 @@ func (e *Explorer) Run(start Point) []PathExit {
 		for k := from; k < end; k++ {
 			ins := blk.Instrs[k]
 			if e.StopAtStart && !first && b == start.Block && k == start.Index {
-				exits = append(exits, PathExit{ExitRevisit, ins, trail})
+				exits = append(exits, PathExit{Kind: ExitRevisit, Last: ins, Trail: trail})
 				return
 			}
 			first = false
@@ -263,18 +266,19 @@ func (e *Explorer) Run(start Point) []PathExit {
 					}
 				}
 			case *ssa.Return:
-				exits = append(exits, PathExit{ExitReturn, ins, trail})
+				st := s.clone()
+				exits = append(exits, PathExit{Kind: ExitReturn, Last: ins, Trail: trail, Nil: func(v ssa.Value) Abs { return e.nilness(v, st) }})
 				return
 			}
 			if cut == k {
-				exits = append(exits, PathExit{ExitCut, ins, trail})
+				exits = append(exits, PathExit{Kind: ExitCut, Last: ins, Trail: trail})
 				return
 			}
 		}
 		succs := e.G.Succs[b]
 		if len(succs) == 0 {
 			if end > 0 {
-				exits = append(exits, PathExit{ExitReturn, blk.Instrs[end-1], trail})
+				exits = append(exits, PathExit{Kind: ExitReturn, Last: blk.Instrs[end-1], Trail: trail})
 			}
 			return
 		}
